@@ -80,6 +80,8 @@ def generate(seed, tier):
         r = rw.random()
         if r < 0.08:
             ops.append(["other"])
+        elif r < 0.13:
+            ops.append(["refill", rw.randrange(2 ** 31), rw.choice(["noise", "randwalk", "sine+noise", "trend+noise"])])
         elif r < 0.3:
             ops.append(["compute"])
         elif r < 0.6:
@@ -90,7 +92,7 @@ def generate(seed, tier):
             if rw.random() < 0.5:
                 ops.append(["single", ["grid", rw.randrange(64)], ["planL", rw.randrange(64)]])
             else:
-                ops.append(["single", ["free", round(rw.uniform(0, 0.5), 5)], rw.choice([["L", rw.randrange(1, Lmax + 1)], ["fres", rw.randrange(1, Lmax + 1)],
+                ops.append(["single", ["free", rw.choice([0.0, 0.5]) if rw.random() < 0.12 else round(rw.uniform(0, 0.5), 5)], rw.choice([["L", rw.randrange(1, Lmax + 1)], ["fres", rw.randrange(1, Lmax + 1)],
                                                                                          ["fres", round(rw.uniform(1.0, Lmax), 3)]])])
     return {"world": W.gen_world(rf, world, 6), "data": data, "cfg": cfg, "other": other, "ops": ops,
             "clock": CK.gen_clock(R.stream(seed, "clock"), p_none=0.5)}
@@ -150,15 +152,16 @@ def execute(sc, out):
     world = sc["world"]["world"]
     backend = W.backend_of(sc["world"])
     if data.ndim == 2:
-        x, y = np.ascontiguousarray(data[0]), np.ascontiguousarray(data[1])
+        x, y = np.array(data[0], copy=True), np.array(data[1], copy=True)
     else:
-        x, y = data, None
+        x, y = np.array(data, copy=True), None
     clock = CK.SimClock(sc.get("clock"))
     sess = SS.WorldSession(sc["world"])
+    buf = data              # the caller's buffer: analyzers may alias it; "refill" overwrites it in place
     with sess:
         try:
             with clock.installed():
-                an = SC.build_analyzer(data, cfg)
+                an = SC.build_analyzer(buf, cfg)
                 p = an.plan()
                 full_f = np.array(p["f"], copy=True)
                 full_L = np.array(p["L"], copy=True)
@@ -190,9 +193,20 @@ def execute(sc, out):
             out.sim_steps += 1
             try:
                 with clock.installed():
-                    if kind == "other":
+                    if kind == "refill":
+                        newrec = SC.make_record(dict(sc["data"], rng=op[1], recipe=op[2]))
+                        buf[...] = newrec
+                        if buf.ndim == 2:
+                            x, y = np.array(buf[0], copy=True), np.array(buf[1], copy=True)
+                        else:
+                            x, y = np.array(buf, copy=True), None
+                        an = SC.build_analyzer(buf, cfg)
+                        an.plan()
+                        full_raw = None
+                        out.count("buffer_refilled_in_place")
+                    elif kind == "other":
                         try:
-                            SC.build_analyzer(data, sc["other"]).compute()
+                            SC.build_analyzer(buf, sc["other"]).compute()
                             out.count("other_analyzer_compute")
                         except Exception:
                             out.count("other_analyzer_failed")
@@ -226,7 +240,7 @@ def execute(sc, out):
                         cfgb["band"] = [lo, hi]
                         if not mask.any():
                             continue
-                        rb = SC.build_analyzer(data, cfgb).compute()
+                        rb = SC.build_analyzer(buf, cfgb).compute()
                         rawb = SS.raw_fields(rb)
                         idx = np.nonzero(mask)[0]
                         for nm in SS.RAW_CMP:
